@@ -19,17 +19,47 @@ KEYS = ["a", "b", "c", "d"]
 VALS = ["v1", "v2", "v3"]
 
 
-class Strat(object):
-    """A strategy value: callable, hashable, equal only to itself."""
+class Val(object):
+    """A value of the dictionary: hashable, EQUAL BY NAME - every use hands the library a fresh object, so the code
+    sees equal-but-not-identical values (bound methods, 1000 vs 1000.0 ...) exactly where the model sees one value."""
     def __init__(self, name):
         self.name = name
         self.__name__ = name
 
-    def __call__(self, *a, **k):
-        return ("called", self.name, a)
+    def __eq__(self, other):
+        return isinstance(other, Val) and other.name == self.name
+
+    def __ne__(self, other):
+        return not self.__eq__(other)
+
+    def __hash__(self):
+        return hash(("Val", self.name))
 
     def __repr__(self):
         return self.name
+
+
+class Strat(Val):
+    """A strategy value: also callable."""
+    def __call__(self, *a, **k):
+        return ("called", self.name, a)
+
+
+class Fresh(object):
+    """obj[v] -> a NEW object equal to every other one made for v."""
+    def __init__(self, cls, names):
+        self.cls = cls
+        self.names = list(names)
+
+    def __getitem__(self, v):
+        return self.cls(v)
+
+    def values(self):
+        return [self.cls(v) for v in self.names]
+
+
+def tag_of(o):
+    return o.name if isinstance(o, Val) else repr(o)
 
 
 def project(d, keys, vals, tag, sd):
@@ -50,7 +80,7 @@ def project(d, keys, vals, tag, sd):
           "len": len(d), "iter": sorted(tag(v) for v in d),
           "keys": sorted(tuple(t) for t in d.keys())}
     if sd:
-        pr["attrs"] = {k: tag(getattr(d, k)) for k in kv if hasattr(d, k)}
+        pr["attrs"] = {k: tag(getattr(d, k)) for k in keys if hasattr(d, k)}   # (a deleted name must be gone)
         dv = vars(d).get("default")
         pr["dflt"] = "none" if dv is None else tag(dv)
         r = d(7)
@@ -111,13 +141,12 @@ def replay_graph(ctx, al, module, cfg, sd):
     ctx.log("%s: %d states, %d transitions to replay" % (module, len(nodes), len(edges)))
     for ei, (src, dst, lab) in enumerate(edges):
         if sd:
-            obj = {v: Strat(v) for v in VALS}
+            obj = Fresh(Strat, VALS)
             dd = al.StrategyDict("sd%d" % ei)
         else:
-            obj = {v: v for v in VALS}
+            obj = Fresh(Val, VALS)
             dd = al.MultiKeyDict()
-        rev = {id(o): n for n, o in obj.items()}
-        tag = (lambda o: rev.get(id(o), repr(o))) if sd else (lambda o: o)
+        tag = tag_of
         path = graphcover.path_to(parent, src) + [ei]
         outcome = None
         for step, pi in enumerate(path):
@@ -145,13 +174,12 @@ def record_walk(ctx, al, sd, nkeys, nvals, length):
     keys = ["k%d" % i for i in range(1, nkeys + 1)]
     vals = ["v%d" % i for i in range(1, nvals + 1)]
     if sd:
-        obj = {v: Strat(v) for v in vals}
+        obj = Fresh(Strat, vals)
         d = al.StrategyDict("walk")
     else:
-        obj = {v: v for v in vals}
+        obj = Fresh(Val, vals)
         d = al.MultiKeyDict()
-    rev = {id(o): n for n, o in obj.items()}
-    tag = (lambda o: rev.get(id(o), repr(o))) if sd else (lambda o: o)
+    tag = tag_of
     events = []
     for step in range(length):
         c = rng.random()
